@@ -41,7 +41,8 @@ LEVEL_NOTE = ('Trusted: Coq kernel, the hand-written model Expiry.v, the corresp
               'over plain and symlinked single colour file caches, with response bodies that break while they are read, with one or two '
               'merged sources (the overlay answering with its uncacheable on_error placeholder), refresh_before time as string or as '
               'datetime object, requests that wait for the tile lock while another request completes (ERace), and a separate stream '
-              'for bulk_meta_tiles managers (run_bulk; step-level theorems only, not part of the history theorems).')
+              'for bulk_meta_tiles managers (run_bulk; step-level theorems only, not part of the history theorems), and a stream '
+              'that loads mapproxy.yaml files with multi-grid caches through the real configuration loader (cache_managers).')
 DESIGN_REF = 'DESIGN.md section 5, C13'
 RULE = ('case = one history (backend, meta mode, initial cache with timestamps, rule, clock, upstream script, 5-14 events); '
         'non-trivial = at least one request that meets a stale or missing tile and one request that meets a fresh tile, or an '
@@ -78,6 +79,7 @@ SIG_PROBE = 'is_cached-is_stale-answer-wrong'
 SIG_CRASH = 'unexpected-exception'
 SIG_LINK = 'linked-single-colour-tile,refresh-with-same-colour-keeps-old-timestamp'
 SIG_RECHECK = 'recheck-under-lock-refetches-refreshed-tile,backend='
+SIG_LOADER = 'cache-refresh_before-not-in-force-for-every-grid'
 SIG_HARDLINK = 'hardlink-single-colour-tile,same-colour-re-store-never-fresh'
 SIG_SEED = 'seed-task-did-not-refetch-stale-tile'
 SIG_SEED_WALK = 'seed-task-did-not-examine-every-meta-tile'
@@ -987,7 +989,7 @@ def bulk_histories(ctx):
                     'rule': {'time': BASE + 2}, 'expire': None, 'now': t0 + 10 * Q, 'ref': None,
                     'script': [('ok', True, False, 3), ('ok', False, False, 4), ('blank',), ('ok', True, False, 6), ('err',)],
                     'events': [('req', [b]), ('req', [a]), ('req', [a, b]), ('req', [c]), ('req', [c])]})
-    for _ in range(ctx.n(50, 400)):
+    for _ in range(ctx.n(36, 400)):
         h = gen_history(ctx.rng, ctx.quick)
         h['bulk'], h['meta'], h['overlay'] = True, True, False
         h['script'] = [(('err',) if oc[0] == 'broken' else oc) for oc in h['script']]
@@ -1038,6 +1040,120 @@ def bulk_stream(ctx):
             'results': [s['res'] for s in ob['steps']], 'upstream_log': ob['log'],
             'final_cache': sorted([list(c), list(v)] for c, v in ob['final'].items())}})
     ctx.corr_check('bulk', 'Expiry', BULK_CASE_TYPE, terms, BULK_CHECKER, lambda i: descr[i], shard=60)
+
+
+def loader_stream(ctx):
+    """refresh_before through the real configuration loader (mapproxy.yaml -> load_configuration ->
+    CacheConfiguration.caches): a cache with 1-3 grids; the rule must be in force for the TileManager of every grid"""
+    import yaml
+    rng = ctx.rng
+    t0 = BASE * Q
+    cases = [({'hours': 1}, t0 + 3600 * Q + 5, None, 2, 'file', 'UTC', False),
+             ({'time': BASE + 3}, t0 + 40, None, 3, 'sqlite', 'WST5', True),
+             ({'mtime': True}, t0 + 40, t0 + 6, 2, 'file', 'EST-5', True),
+             (None, t0 + 40, None, 2, 'file', 'UTC', False)]
+    for _ in range(ctx.n(8, 60)):
+        nowh = [t0 + rng.randrange(2 * Q, 8 * Q)]
+        rule, expire, ref = gen_rule(rng, t0 + rng.randrange(-3 * Q, 4 * Q), nowh)
+        if rule is not None:
+            rule = dict(rule, time_obj=False)
+        if rule is not None and rule.get('mtime') and rng.random() < 0.2:
+            ref = None
+        cases.append((rule, nowh[0], ref, rng.choice([1, 2, 2, 3]), rng.choice(['file', 'sqlite']), rng.choice(ZONES),
+                      rng.random() < 0.5))
+    terms, descr = [], []
+    for rule, now, ref, ngrids, ctype, tz, meta in cases:
+        saved_tz = os.environ.get('TZ')
+        os.environ['TZ'] = tz
+        _time.tzset()
+        clock = Clock()
+        clock.ticks = now
+        d = ctx.tmpdir('ld')
+        obs, probes = [], []
+        try:
+            with Patched(clock):
+                from mapproxy.config.loader import load_configuration
+                from mapproxy.seed.config import SeedConfigurationError
+                ref_file = os.path.join(d, 'datasource.ref')
+                if ref is not None:
+                    with open(ref_file, 'a'):
+                        pass
+                    ns = ref * (1000000000 // Q)
+                    os.utime(ref_file, ns=(ns, ns))
+                cache = {'grids': ['g%d' % i for i in range(ngrids)], 'sources': ['src'], 'cache': {'type': ctype}}
+                if meta:
+                    cache['meta_size'] = list(META)
+                    cache['meta_buffer'] = 0
+                if rule is not None:
+                    cache['refresh_before'] = rule_conf(rule, ref_file)
+                conf = {'services': {'tms': None},
+                        'grids': dict(('g%d' % i, {'srs': 'EPSG:4326', 'bbox': [0, 0, EXTENT * (i + 1), EXTENT * (i + 1)],
+                                                   'tile_size': [TS, TS], 'res': [r * (i + 1) for r in RES], 'origin': 'll'})
+                                      for i in range(ngrids)),
+                        'sources': {'src': {'type': 'wms', 'req': {'url': 'http://127.0.0.1:9/', 'layers': 'x'}}},
+                        'caches': {'c': cache},
+                        'layers': [{'name': 'l', 'title': 'l', 'sources': ['c']}],
+                        'globals': {'cache': {'base_dir': d, 'lock_dir': os.path.join(d, 'locks')}}}
+                path = os.path.join(d, 'mapproxy.yaml')
+                with open(path, 'w') as f:
+                    f.write(yaml.safe_dump(conf))
+                import logging
+                logging.disable(logging.CRITICAL)
+                try:
+                    pc = load_configuration(path)
+                finally:
+                    logging.disable(logging.NOTSET)
+                mgrs = [m for (_g, _e, m) in pc.caches['c'].caches()]
+                for m in mgrs:
+                    try:
+                        v = m.expire_timestamp()
+                        if v is None:
+                            obs.append(None)
+                        else:
+                            t = v * Q
+                            obs.append(int(t) if t == int(t) else 'inexact:%r' % v)
+                    except SeedConfigurationError:
+                        obs.append('err')
+                    try:
+                        m.cleanup()
+                    except Exception:  # noqa
+                        pass
+        except Exception as e:  # noqa
+            import traceback
+            ctx.problem('harness', 'configuration could not be loaded: %r' % (e,), traceback.format_exc()[-1200:])
+            continue
+        finally:
+            if saved_tz is None:
+                os.environ.pop('TZ', None)
+            else:
+                os.environ['TZ'] = saved_tz
+            _time.tzset()
+        want = my_threshold(rule, None, now, ref)
+        rep = {'refresh_before': rule, 'grids': ngrids, 'cache_type': ctype, 'tz': tz, 'meta_size': list(META) if meta else None,
+               'now_ticks': now, 'ref_mtime_ticks': ref, 'ticks_per_second': Q, 'threshold_per_grid_manager': obs,
+               'threshold_of_the_rule': want}
+        ctx.case(('loader', repr(rep)), ngrids > 1 and rule is not None, None)
+        ctx.count('loader_grids=%d' % ngrids)
+        if len(obs) != ngrids:
+            ctx.fail(SIG_LOADER, 'cache with %d grids has %d tile managers' % (ngrids, len(obs)), rep)
+        for i, o in enumerate(obs):
+            if o != want:
+                ctx.fail(SIG_LOADER, 'refresh_before %r of the cache: the tile manager of grid %d of %d works with threshold %r, '
+                         'the rule says %r' % (rule, i, ngrids, o, want), rep)
+
+        def tl(o):
+            if o is None:
+                return 'ThrNone'
+            if o == 'err':
+                return 'ThrErr'
+            return '(ThrAt %s)' % zlit(o) if isinstance(o, int) else '(ThrAt (-1))'
+        terms.append('(%s, %s, %s, %s, %s)' % (rlit(rule), '(mkEnv %s %s)' % (zlit(now), olit(ref)), blit(ctype == 'sqlite'),
+                                              llit([meta] * ngrids, blit), llit(obs, tl)))
+        descr.append(rep)
+    ctx.corr_check('loader', 'Expiry', 'option rconf * env * bool * list bool * list thr', terms,
+                   "fun c => let '(rb, ev, fs, grids, obs_i) := c in "
+                   "list_eqb thr_eqb (map (fun m => expire_timestamp %d m ev) (cache_managers rb fs grids)) obs_i" % Q,
+                   lambda i: descr[i], shard=100)
 
 
 def hardlink_scenario(ctx):
@@ -1398,7 +1514,7 @@ def jsonable(h):
 def run(ctx):
     rng = ctx.rng
     hs = load_corpus() + fixed_histories()
-    for _ in range(ctx.n(260, 2400)):
+    for _ in range(ctx.n(200, 2400)):
         hs.append(gen_history(rng, ctx.quick))
     terms, descr = [], []
     for h in hs:
@@ -1439,4 +1555,5 @@ def run(ctx):
             'final_cache': sorted([list(c), list(v)] for c, v in ob['final'].items()), 'upstream_log': ob['log']}})
     hardlink_scenario(ctx)
     bulk_stream(ctx)
+    loader_stream(ctx)
     ctx.corr_check('history', 'Expiry', CASE_TYPE, terms, CHECKER, lambda i: descr[i], shard=60)
